@@ -276,6 +276,29 @@ struct BaseContiguousParameterTraits
                                             std::end(target));
     }
 
+    static void copy(const cntgs::Span<std::add_const_t<T>>& source,
+                     const cntgs::Span<T>& target) noexcept(std::is_nothrow_copy_assignable_v<T>)
+    {
+        std::copy(std::begin(source), std::end(source), std::begin(target));
+    }
+
+    static void copy(const cntgs::Span<T>& source,
+                     const cntgs::Span<T>& target) noexcept(std::is_nothrow_copy_assignable_v<T>)
+    {
+        std::copy(std::begin(source), std::end(source), std::begin(target));
+    }
+
+    static void move(const cntgs::Span<T>& source,
+                     const cntgs::Span<T>& target) noexcept(std::is_nothrow_move_assignable_v<T>)
+    {
+        std::move(std::begin(source), std::end(source), std::begin(target));
+    }
+
+    static void swap(const cntgs::Span<T>& lhs, const cntgs::Span<T>& rhs) noexcept(std::is_nothrow_swappable_v<T>)
+    {
+        std::swap_ranges(std::begin(lhs), std::end(lhs), std::begin(rhs));
+    }
+
     static constexpr void destroy(const cntgs::Span<T>& value) noexcept
     {
         std::destroy(Self::begin(value), std::end(value));
@@ -421,29 +444,6 @@ struct ParameterTraits<cntgs::FixedSize<cntgs::AlignAs<T, Alignment>>> : BaseCon
                 detail::worst_case_padding<(TRAILING_ALIGNMENT < NextAlignment), NextAlignment>(
                     new_offset, padding_offset - new_offset, known_alignment),
                 known_alignment};
-    }
-
-    static void copy(const cntgs::Span<std::add_const_t<T>>& source,
-                     const cntgs::Span<T>& target) noexcept(std::is_nothrow_copy_assignable_v<T>)
-    {
-        std::copy(std::begin(source), std::end(source), std::begin(target));
-    }
-
-    static void copy(const cntgs::Span<T>& source,
-                     const cntgs::Span<T>& target) noexcept(std::is_nothrow_copy_assignable_v<T>)
-    {
-        std::copy(std::begin(source), std::end(source), std::begin(target));
-    }
-
-    static void move(const cntgs::Span<T>& source,
-                     const cntgs::Span<T>& target) noexcept(std::is_nothrow_move_assignable_v<T>)
-    {
-        std::move(std::begin(source), std::end(source), std::begin(target));
-    }
-
-    static void swap(const cntgs::Span<T>& lhs, const cntgs::Span<T>& rhs) noexcept(std::is_nothrow_swappable_v<T>)
-    {
-        std::swap_ranges(std::begin(lhs), std::end(lhs), std::begin(rhs));
     }
 };
 }  // namespace cntgs::detail
